@@ -953,18 +953,36 @@ fn check_config_door(scene: &Scene, flags: u32, discard: Discard, kind: TargetKi
     if st.prims.i != scene.tris.len() { bad.push(format!("prims.i={} submitted {}", st.prims.i, scene.tris.len())); }
     if st.verts.i != scene.tris.len() * 3 { bad.push(format!("verts.i={} submitted {}", st.verts.i, scene.tris.len() * 3)); }
     if st.verts.o != st.prims.o * 3 { bad.push(format!("verts.o={} != 3*prims.o={}", st.verts.o, st.prims.o)); }
-    // prims.o: triangles returned by the public clipper minus harness-culled ones (only decidable when no triangle is clipped)
-    if scene.tris.iter().all(|t| clip_class(&t.v) != "clipped") {
+    // prims.o: the pieces the public clipper (C03) cuts each triangle into, minus harness-culled ones. A clipped triangle counts with
+    // as many pieces as view_frustum::clip returns for it; all of them have the winding of the exact visible part. (Undecided, and
+    // not judged, when the visible part or one of the pieces has next to no area on screen.)
+    {
+        use re::render::clip::{view_frustum, ClipVert};
         let mut exp = 0;
         let mut decidable = true;
+        let (vx, vy) = ((scene.vp.2 as f64 - scene.vp.0 as f64) / 2.0, (scene.vp.3 as f64 - scene.vp.1 as f64) / 2.0);
         for t in &scene.tris {
-            match (clip_class(&t.v), signed_area_screen(t, scene.vp)) {
-                ("hidden", _) => {}
-                (_, Some(a)) => { if a.abs() < 1e-9 { decidable = false; } else { let back = a > 0.0; exp += match ctx.face_cull { None => 1, Some(FaceCull::Back) => (!back) as usize, Some(FaceCull::Front) => back as usize }; } }
+            let class = clip_class(&t.v);
+            if class == "hidden" { continue; }
+            let pieces = if class == "clipped" {
+                let input = Tri(std::array::from_fn::<_, 3, _>(|k| ClipVert::new(vertex(ClipVec::from(t.v[k]), t.a[k]))));
+                let mut o = vec![];
+                if caught(|| view_frustum::clip(std::slice::from_ref(&input), &mut o)).is_err() { decidable = false; break; }
+                // every piece must have a clear on-screen area of its own (culling is decided per piece)
+                for Tri(vs) in &o {
+                    let s: Vec<[f64; 2]> = vs.iter().map(|v| { let [x, y, _, w] = v.pos.0.map(|c| c as f64); [x / w * vx, y / w * vy] }).collect();
+                    let a = (s[1][0] - s[0][0]) * (s[2][1] - s[0][1]) - (s[1][1] - s[0][1]) * (s[2][0] - s[0][0]);
+                    if a.abs() < 1e-6 { decidable = false; }
+                }
+                o.len()
+            } else { 1 };
+            match signed_area_screen(t, scene.vp) {
+                Some(a) if a.abs() >= 1e-9 => { let back = a > 0.0; exp += match ctx.face_cull { None => pieces, Some(FaceCull::Back) => if back { 0 } else { pieces }, Some(FaceCull::Front) => if back { pieces } else { 0 } }; }
                 _ => decidable = false,
             }
         }
         if decidable && st.prims.o != exp { bad.push(format!("prims.o={} but {} triangles survive clipping and culling", st.prims.o, exp)); }
+        if decidable && scene.tris.iter().any(|t| clip_class(&t.v) == "clipped") { r.h("prims.o-judged-with-clipped-triangles"); }
     }
     // what one call reports for several triangles is the sum of what it reports for each of them alone (clipping, culling
     // and rasterization treat every triangle on its own: no state may carry over from one triangle to the next)
@@ -1274,7 +1292,7 @@ fn run_config(cfg: &Cfg) -> ! {
     rep.sample(0, || obj! {"scene" => "2 overlapping triangles, 8x6 buffer viewport (1,2)..(7,5)", "flags" => "cull Front, sort BackToFront, test Greater, color_write off, depth_write on", "discard" => "Parity", "target" => "ColorOnly"});
     rep.finish(cfg, "exploration",
         "scenes (1-3 pool triangles in both vertex orders, lattice triangles, the empty list) x all 144 Context combinations (face_cull x depth_sort x depth_test x color_write x depth_write) x fragment shader {never, always, checkerboard discard} x target {Framebuf, colour-only}: write masks leave their buffer untouched, colour writes do not influence depth, disabled test => every generated fragment is shaded and depth is written wherever colour is, discarding shader writes nothing, and Stats (calls, prims, verts, frags in/out) equal independent counts (submitted sizes, harness-side clip class and on-screen winding, shader invocation counters of twin runs, changed-pixel counts), accumulate over calls incl. calls where nothing survives and the Batch door; culling: every unclipped and every clipped triangle (incl. vertices behind the viewer; winding = signed area of the exact visible part) with at least one unambiguous interior pixel, in both vertex orders x 3 modes x 6 viewports incl. axis-mirrored ones x 2 targets, plus triangles of 1/2..1/512 px around every pixel centre (judged when the centre is > 0.002 px inside): exactly one order drawn, chosen by the harness's own on-screen signed area, both drawn and equal away from edge pixels when off; convention-free cross-check: nine closed convex solids from geom::solids x six view directions through Camera::render look the same with Back culling as without (up to silhouette depth ties) and different with Front culling. non-trivial = configuration fully judged.",
-        &["Back-face convention: positive on-screen signed area (x1-x0)(y2-y0)-(y1-y0)(x2-x0) is a back face, as implied by the solids' outward normals (C15)", "prims.o is judged only for scenes without clipped triangles", "on-screen winding of a clipped triangle = signed area of its exact visible part (vertex enumeration, not the library's clipper)"]);
+        &["Back-face convention: positive on-screen signed area (x1-x0)(y2-y0)-(y1-y0)(x2-x0) is a back face, as implied by the solids' outward normals (C15)", "prims.o of a clipped triangle = number of pieces view_frustum::clip (C03) returns for it, all with the winding of the exact visible part; not judged when a piece has next to no on-screen area", "on-screen winding of a clipped triangle = signed area of its exact visible part (vertex enumeration, not the library's clipper)"]);
 }
 
 fn main() {
